@@ -245,7 +245,11 @@ def _ops(draw, maxops):
                  st.tuples(st.just('ckpt'), st.booleans()).map(list), st.tuples(st.just('ckpt'), st.booleans()).map(list),
                  st.tuples(st.just('restore'), st.integers(0, 5)).map(list), st.tuples(st.just('restore'), st.integers(0, 5)).map(list),
                  st.just(['drain']))
-  return draw(st.lists(op, min_size=2, max_size=maxops)) + [['drain']]
+  ops = draw(st.lists(op, min_size=2, max_size=maxops))
+  if draw(st.integers(0, 4)) == 0:
+    # a checkpoint taken exactly at the end of the (shard of the) source, restored: nothing may follow
+    ops += [['drain'], ['ckpt', draw(st.booleans())], ['restore', len([o for o in ops if o[0] == 'ckpt'])]]
+  return ops + [['drain']]
 
 
 def _source(draw, n, allow_iterable=True, hashable=False):
@@ -261,6 +265,10 @@ def _source(draw, n, allow_iterable=True, hashable=False):
     shards.append([draw(st.integers(0, k - 1)), k, draw(st.sampled_from([0, 0, 1, 2]))])
   if shards:
     src['shards'] = shards
+    if kind == 'multi' and n and draw(st.booleans()):
+      # the merged sub-sequences end exactly where the first-level shards end (a shard's last element is a sequence's last)
+      k = shards[0][1]
+      src['cuts'] = sorted({(n * i) // k for i in range(1, k)} | {-(-n * i // k) for i in range(1, k)}) or src['cuts']
   if not kind.startswith('iterable') and n and draw(st.integers(0, 2)) == 0:
     src['bad'] = sorted(set(draw(st.lists(st.integers(0, n - 1), min_size=1, max_size=3))))
   return src
